@@ -57,7 +57,7 @@ func DecodeSignature(derEncoded []byte) (r, s *big.Int, sigHashType uint32, err 
 	if rTag != TagInteger {
 		err = invalidEncodingError("found incorrect type byte for signature r value")
 		return
-	} else if rSize > encodedSize-5 || rSize == 0 {
+	} else if rSize >= encodedSize-5 || rSize == 0 {
 		err = invalidEncodingError("length of r is not valid")
 		return
 	}
